@@ -89,6 +89,8 @@ type Frame struct {
 	isDefer  bool
 	locals   map[string][]Val // source name -> pointer values (cells / heap cells), allocation order
 	measures map[*ssa.BasicBlock]Term
+	loopEntry map[*ssa.BasicBlock]*loopSnap // state when the loop was entered from outside (for entry(e))
+	curLoop   *ssa.BasicBlock               // innermost loop head whose clauses are being evaluated
 	loopMark map[*ssa.BasicBlock]int // number of events on the path when the loop head was entered
 	entryView *HeapView
 	eventIdx  int
@@ -125,6 +127,12 @@ type State struct {
 	genW    Term
 	havocAllSeen bool
 	localCells   []*localCell // heap-allocated locals of the frames on the stack
+}
+
+// loopSnap: heap view and local cells at the moment a loop was entered.
+type loopSnap struct {
+	view  *HeapView
+	cells []Val
 }
 
 type localCell struct {
